@@ -22,7 +22,38 @@ func runC04(r *Run) {
 	r.rule("C04.R5", "the recorded execution amounts are the same values that are subtracted", 2)
 	r.rule("C04.R6", "Slash: cache-context discipline (the duplicate-ID / record check happens before the commit; nothing fails after it)", 4)
 	r.rule("C04.R7", "CheckSlashParameter (non-negative proportion, event height <= current height) dominates SlashAssets", 3)
-	r.rule("C04.R8", "frame condition in the callees: slashed records/pools are written back through the iterator helpers; the share-zeroing after a pool-emptying slash changes only UndelegatableShare", 4)
+	r.rule("C04.R8", "frame condition in the callees: slashed records/pools are written back through the iterator helpers; the share-zeroing after a pool-emptying slash changes only UndelegatableShare", 5)
+	// a slash factor of exactly one is a legal slash: the record check rejects only factors above one (a rejected
+	// record drops the whole slash, which ran in the same cache context)
+	if uv := w.View("x/operator/keeper", "Keeper.UpdateOperatorSlashInfo"); uv != nil {
+		isOne := func(e ast.Expr) bool {
+			s := exprString(e)
+			return strings.HasSuffix(s, "NewDec(1)") || strings.HasSuffix(s, "OneDec()")
+		}
+		okUpper := uv.rejectsWhen(uv.Decl.Body, func(f Fact) bool {
+			c, isC := factCmp(f)
+			return isC && c.Op == ">" && lastField(c.L) == "SlashProportion" && isOne(c.R)
+		}, nil)
+		tooStrict := uv.rejectsWhen(uv.Decl.Body, func(f Fact) bool {
+			c, isC := factCmp(f)
+			return isC && c.Op == ">=" && lastField(c.L) == "SlashProportion" && isOne(c.R)
+		}, nil)
+		r.check(okUpper && !tooStrict, "C04.R8", "slash-record|factor-range", uv.pos(uv.Decl), "a slash record is rejected for a factor above one, and not for a factor of exactly one", "UpdateOperatorSlashInfo does not reject exactly the factors above one: a slash with factor 1 executes, its record is refused, the cache context is dropped and nothing is removed or recorded")
+	} else {
+		r.bad("C04.R8", "slash-record|factor-range", "-", "anchor", "UpdateOperatorSlashInfo not found")
+	}
+	// the shares of a pool slashed to zero are cleared through the staker list only when there is one (a pool
+	// emptied by an earlier slash has none; asking for it fails and would abort every later slash of the operator)
+	if sv := w.View("x/operator/keeper", "Keeper.SlashAssets"); sv != nil {
+		ok, n := true, 0
+		for _, c := range sv.CallsNamed("GetStakersByOperator") {
+			n++
+			if sv.GuardedBy(c, byName("HasStakerList"), true) == nil {
+				ok = false
+			}
+		}
+		r.check(ok && n >= 1, "C04.R8", "SlashAssets|staker-list-guarded", sv.pos(sv.Decl), "the staker list of a pool is read only when HasStakerList says it exists", "SlashAssets reads the staker list of an emptied pool without HasStakerList: for a pool without a list the read fails and the whole slash aborts, so the operator can no longer be slashed")
+	}
 	// every pool of the operator is slashed: the pool iteration of SlashAssets gets no asset filter
 	if sv := w.View("x/operator/keeper", "Keeper.SlashAssets"); sv != nil {
 		okNil := false
